@@ -106,6 +106,7 @@ class Evaluator:
     self.path = []
     self.frames = []
     self.loop_stack = []
+    self.loop_ctl = []     # per active loop: list of (cond, snapshot, kind) for undecided continue/break
     self._ids = 0
     self._active = []     # fqs being inlined (recursion guard)
     self._mod_loading = set()
@@ -226,8 +227,8 @@ class Evaluator:
     terminated = False
     for s in stmts:
       r = self.exec_stmt(s, scope)
-      if r is True:
-        terminated = True
+      if r is True or r in ('cont', 'brk'):
+        terminated = r
         break
       if isinstance(r, T):          # residual path condition for the rest
         self.path.append(r)
@@ -275,8 +276,8 @@ class Evaluator:
     if isinstance(s, ast.If):
       return self.exec_if(s, scope)
     if isinstance(s, (ast.For, ast.AsyncFor)):
-      self.exec_for(s, scope)
-      return False
+      r = self.exec_for(s, scope)
+      return True if r is True else False
     if isinstance(s, ast.While):
       self.exec_while(s, scope)
       return False
@@ -335,8 +336,12 @@ class Evaluator:
     if isinstance(s, (ast.Global, ast.Nonlocal)):
       self.effects.append(('global' if isinstance(s, ast.Global) else 'nonlocal', tuple(s.names), fr.fq, s))
       return False
-    if isinstance(s, (ast.Pass, ast.Break, ast.Continue)):
+    if isinstance(s, ast.Pass):
       return False
+    if isinstance(s, ast.Continue):
+      return 'cont' if self.loop_ctl else False
+    if isinstance(s, ast.Break):
+      return 'brk' if self.loop_ctl else False
     self.effects.append(('unsupported-stmt', type(s).__name__, fr.fq, s))
     return False
 
@@ -358,6 +363,12 @@ class Evaluator:
     tb = self.exec_block(s.orelse, scope)
     self.path.pop()
     sb = self._snap(scope)
+    if ta in ('cont', 'brk') and self.loop_ctl:
+      self.loop_ctl[-1].append((c, sa, ta))
+      ta = True
+    if tb in ('cont', 'brk') and self.loop_ctl:
+      self.loop_ctl[-1].append((nc, sb, tb))
+      tb = True
     if ta and tb:
       return True
     if ta:
@@ -369,6 +380,11 @@ class Evaluator:
     self._merge(scope, c, sa, sb)
     return False
 
+  def _merge_pending(self, scope, pend):
+    for c, snap, kind in reversed(pend):
+      cur = self._snap(scope)
+      self._merge(scope, c, snap, cur)
+
   def _assigned_names(self, stmts):
     fake = ast.FunctionDef(name='_', args=ast.arguments(posonlyargs=[], args=[], kwonlyargs=[], kw_defaults=[], defaults=[], vararg=None, kwarg=None), body=list(stmts), decorator_list=[], returns=None)
     return _local_names(fake)
@@ -377,10 +393,20 @@ class Evaluator:
     it = self.ev(s.iter, scope)
     items = self.enumerate_iter(it)
     if items is not None and len(items) <= self.unroll:
+      broke = False
       for x in items:
         self.assign(s.target, x, scope)
-        self.exec_block(s.body, scope)
-      self.exec_block(s.orelse, scope)
+        self.loop_ctl.append([])
+        st = self.exec_block(s.body, scope)
+        pend = self.loop_ctl.pop()
+        self._merge_pending(scope, pend)
+        if st == 'brk':
+          broke = True
+          break
+        if st is True:
+          return True
+      if not broke:
+        self.exec_block(s.orelse, scope)
       return
     lid = self.new_id('L')
     assigned = self._assigned_names(s.body)
@@ -392,11 +418,14 @@ class Evaluator:
     self.assign(s.target, self.elem_of(it), scope)
     self.loop_stack.append((lid, it))
     self.path.append(T('inloop', lid))
+    self.loop_ctl.append([])
     try:
       self.exec_block(s.body, scope)
     finally:
+      pend = self.loop_ctl.pop()
       self.path.pop()
       self.loop_stack.pop()
+    self._merge_pending(scope, pend)
     for v in assigned:
       if v in scope.vars:
         bv = scope.vars[v]
@@ -418,11 +447,14 @@ class Evaluator:
     c = self.ev(s.test, scope)
     self.loop_stack.append((lid, T('whiletest', c)))
     self.path.append(T('inloop', lid))
+    self.loop_ctl.append([])
     try:
       self.exec_block(s.body, scope)
     finally:
+      pend = self.loop_ctl.pop()
       self.path.pop()
       self.loop_stack.pop()
+    self._merge_pending(scope, pend)
     for v in assigned:
       if v in scope.vars:
         bv = scope.vars[v]
@@ -1159,7 +1191,9 @@ class Evaluator:
     fr = _Frame(key, len(self.path))
     self.frames.append(fr)
     saved_loops = self.loop_stack
+    saved_ctl = self.loop_ctl
     self.loop_stack = []
+    self.loop_ctl = []
     try:
       if isinstance(node, ast.Lambda):
         return self.ev(node.body, sc)
@@ -1168,6 +1202,7 @@ class Evaluator:
         fr.returns.append((tuple(self.path[fr.path_base:]), NONE))
     finally:
       self.loop_stack = saved_loops
+      self.loop_ctl = saved_ctl
       self.frames.pop()
       self._active.pop()
     self.last_scope = sc
